@@ -66,8 +66,8 @@ type VerifScopeState struct {
 	Scope           *Scope
 	Name            string
 	Parent          *Scope
-	Nodes           []VerifNode                // accepted constructors, registration order
-	Providers       map[VerifKey][]uintptr     // node ids per key (empty lists omitted)
+	Nodes           []VerifNode            // accepted constructors, registration order
+	Providers       map[VerifKey][]uintptr // node ids per key (empty lists omitted)
 	Decorators      map[VerifKey]VerifDecorator
 	Values          map[VerifKey]reflect.Value
 	DecoratedValues map[VerifKey]reflect.Value
